@@ -617,3 +617,129 @@ def gen_loops():
 if __name__ == '__main__':
     t, d = gen_loops()
     print(t['EffectsDefs'])
+
+
+# ------------------------------------------------------------------ stack walks of core/node.py (pre_order, post_order)
+def read_walk(fn):
+    """-> (init WStmt term, loop WStmt term) for a stack-based traversal method"""
+    U = lambda why: ('.skip', f'(.unknown {lean_str(why)})')
+    if fn is None:
+        return U('method missing')
+    stmts = body_of(fn)
+    ret = stmts[-1] if stmts and isinstance(stmts[-1], ast.Return) and isinstance(stmts[-1].value, ast.Name) else None
+    if ret is None:
+        return U('no `return <list>`')
+    out = ret.value.id
+    inits = {}
+    k = 0
+    while k < len(stmts) and isinstance(stmts[k], ast.Assign) and len(stmts[k].targets) == 1 and isinstance(stmts[k].targets[0], ast.Name) \
+            and isinstance(stmts[k].value, ast.List):
+        inits[stmts[k].targets[0].id] = [ast.unparse(e) for e in stmts[k].value.elts]
+        k += 1
+    rest = stmts[k:-1]
+    if inits.get(out) != [] or len(inits) != 2 or len(rest) != 1 or not isinstance(rest[0], ast.While):
+        return U('not `out = []; stack = [...]; while …; return out`')
+    stack = next(n for n in inits if n != out)
+    init = '.skip' if inits[stack] == [] else ('(.push .self_)' if inits[stack] == ['self'] else f'(.unknown {lean_str("stack = " + str(inits[stack]))})')
+    loop = rest[0]
+    # the cursor: the name that receives `stack.pop()`
+    cur = None
+    for n in ast.walk(loop):
+        if isinstance(n, ast.Assign) and len(n.targets) == 1 and isinstance(n.targets[0], ast.Name) and ast.unparse(n.value) == f'{stack}.pop()':
+            cur = n.targets[0].id
+    if cur is None:
+        return U('no cursor')
+
+    def expr(e):
+        u = ast.unparse(e)
+        return {cur: '.cur', f'{cur}.left': '.curLeft', f'{cur}.right': '.curRight', 'None': '.none_'}.get(u)
+
+    def cond(c):
+        if isinstance(c, ast.BoolOp) and isinstance(c.op, ast.And):
+            parts = [cond(v) for v in c.values]
+            acc = parts[-1]
+            for p_ in reversed(parts[:-1]):
+                acc = f'(.and {p_} {acc})'
+            return acc
+        u = ast.unparse(c)
+        table = {f'len({stack}) > 0': '.stackNonEmpty', f'len({stack}) != 0': '.stackNonEmpty', f'{stack}': '.stackNonEmpty',
+                 f'len({stack}) == 0': '.stackEmpty', f'not {stack}': '.stackEmpty',
+                 f'{cur} is not None': '.curNotNone', f'{cur}.left is not None': '.curLeftNotNone',
+                 f'{cur}.right is not None': '.curRightNotNone', f'{stack}[-1] is {cur}.right': '.stackTopIsCurRight'}
+        return table.get(u, '.unknown')
+
+    def block(bs):
+        items = [stmt(b) for b in bs if not (isinstance(b, ast.Expr) and isinstance(b.value, ast.Constant))]
+        if not items:
+            return '.skip'
+        acc = items[-1]
+        for it in reversed(items[:-1]):
+            acc = f'(.seq {it} {acc})'
+        return acc
+
+    def stmt(st):
+        u = ast.unparse(st)
+        if isinstance(st, ast.Expr) and isinstance(st.value, ast.Call):
+            f = ast.unparse(st.value.func)
+            if f == f'{stack}.append' and len(st.value.args) == 1 and expr(st.value.args[0]):
+                return f'(.push {expr(st.value.args[0])})'
+            if f == f'{out}.append' and len(st.value.args) == 1 and ast.unparse(st.value.args[0]) == cur:
+                return '.emitCur'
+            if u == f'{stack}.pop()':
+                return '.popDiscard'
+        if isinstance(st, ast.Assign) and len(st.targets) == 1 and isinstance(st.targets[0], ast.Name) and st.targets[0].id == cur:
+            if ast.unparse(st.value) == f'{stack}.pop()':
+                return '.popToCur'
+            if expr(st.value):
+                return f'(.setCur {expr(st.value)})'
+        if isinstance(st, ast.If):
+            return f'(.ifThenElse {cond(st.test)} {block(st.body)} {block(st.orelse)})'
+        if isinstance(st, ast.While) and not st.orelse:
+            # `while True: (while c1: b1); rest; if brk: break`
+            if ast.unparse(st.test) == 'True':
+                b = [x for x in st.body if not (isinstance(x, ast.Expr) and isinstance(x.value, ast.Constant))]
+                if len(b) >= 2 and isinstance(b[0], ast.While) and not b[0].orelse and isinstance(b[-1], ast.If) and not b[-1].orelse \
+                        and len(b[-1].body) == 1 and isinstance(b[-1].body[0], ast.Break) \
+                        and not any(isinstance(n, (ast.Break, ast.Continue)) for x in b[:-1] for n in ast.walk(x)):
+                    return f'(.loopNest {cond(b[0].test)} {block(b[0].body)} {block(b[1:-1])} {cond(b[-1].test)})'
+                return f'(.unknown {lean_str("while True: " + u[:40])})'
+            if not any(isinstance(n, (ast.Break, ast.Continue)) for n in ast.walk(st)):
+                return f'(.whileDo {cond(st.test)} {block(st.body)})'
+        return f'(.unknown {lean_str(u[:50])})'
+    return init, stmt(loop)
+
+
+def extract_walks():
+    path = f'{REPO}/opytimizer/core/node.py'
+    pre = read_walk(find_method(path, 'Node', 'pre_order'))
+    post = read_walk(find_method(path, 'Node', 'post_order'))
+    return dict(preInit=pre[0], preLoop=pre[1], postInit=post[0], postLoop=post[1])
+
+
+_old_gen_loops5 = gen_loops
+
+
+def gen_loops():
+    texts, data = _old_gen_loops5()
+    w = extract_walks()
+    D = ['-- GENERATED by harness/translate_loops.py from Node.pre_order / Node.post_order. Do not edit.',
+         'import OpyVerif.Model.NodeWalk', 'namespace Opy.Gen', 'open Opy', '',
+         f'def preOrderInit : WStmt := {w["preInit"]}', f'def preOrderLoop : WStmt := {w["preLoop"]}',
+         f'def postOrderInit : WStmt := {w["postInit"]}', f'def postOrderLoop : WStmt := {w["postLoop"]}',
+         '', 'end Opy.Gen', '']
+    T = ['-- GENERATED by harness/translate_loops.py: obligations re-decided on every build. Do not edit.',
+         'import OpyVerif.Generated.WalksDefs', 'namespace Opy.Gen', 'open Opy',
+         '/-- `Node.pre_order` reads as the program `Proofs/NodeWalk.pre_loop_eq` proves to be `preLoop` -/',
+         'theorem preOrder_eq : preOrderInit = Expected.preOrderInit ∧ preOrderLoop = Expected.preOrderLoop := by decide +kernel',
+         '/-- `Node.post_order` reads as the program `Proofs/NodeWalk.post_loop_eq` proves to be `postLoop` -/',
+         'theorem postOrder_eq : postOrderInit = .skip ∧ postOrderLoop = Expected.postOrderLoop := by decide +kernel',
+         'end Opy.Gen', '']
+    texts['WalksDefs'] = '\n'.join(D)
+    texts['Walks'] = '\n'.join(T)
+    data['walks'] = w
+    return texts, data
+
+
+if __name__ == '__main__':
+    t, d = gen_loops()
+    print(t['WalksDefs'])
